@@ -180,6 +180,11 @@ package nsqd
 //@   ensures[backend-error-returned] backendWrites == old(backendWrites) + 1 ==> result == lastWriteErr
 //@   ensures[other-counters] c.requeueCount == old(c.requeueCount) && c.timeoutCount == old(c.timeoutCount)
 //@   modifies c.messageCount, backendWrites, lastWriteMsg, lastWriteQueue, lastWriteErr, healthSets, lastHealthErr, lastHealthNSQD, chanPuts, chanPutOK, lastChanPutMsg
+//   the hand-off, for Topic.messagePump's distribution clauses (ghosts in zz_contracts_ltopic_verif.go)
+//@   onreturn lHandCalls := lHandCalls + 1
+//@   onreturn lHandChan := c
+//@   onreturn lHandMsg := m
+//@   onreturn lHandDeferred := false
 
 // ---- deferred publish -------------------------------------------------------------------------------
 // deferredMutex protects the deferred map and the deferred heap. Every entry of the map is an item
@@ -251,6 +256,11 @@ package nsqd
 //@   ensures[at-most-one] c.messageCount == old(c.messageCount) || c.messageCount == fmod(old(c.messageCount) + 1, two64())
 //@   ensures[other-counters] c.requeueCount == old(c.requeueCount) && c.timeoutCount == old(c.timeoutCount)
 //@   modifies c.messageCount, c.deferredMessages, c.deferredPQ, mapstore(map[MessageID]*pqueue.Item), elems(*pqueue.Item), pqueue.Item.Index, deferredPushes, deferredPushOK, lastDeferredMsg, lastNow
+//@   onreturn lHandCalls := lHandCalls + 1
+//@   onreturn lHandChan := c
+//@   onreturn lHandMsg := msg
+//@   onreturn lHandDeferred := true
+//@   onreturn lHandDelay := timeout
 
 // ---- flush / empty (C05) ----------------------------------------------------------------------------
 // Close persists what is still held in memory: the memory queues, the in-flight map and the deferred
